@@ -46,6 +46,10 @@ def exhaustive_type_table(eng):
                         if res:
                             continue
                         leafs = [("L", gen.gen_leaf(r, kind)) for _ in range(6)]
+                        if kind in ("a6", "ip6") and fl == 0x40:
+                            leafs += [("L", (kind, b)) for b in gen.ipv6_special_forms()]
+                        if kind in ("a4", "ip4") and fl == 0x40:
+                            leafs += [("L", (kind, b)) for b in (b"\0\0\0\0", b"\xff\xff\xff\xff", b"\x7f\0\0\1", b"\xe0\0\0\1", b"\xa9\xfe\1\1")]
                     ti = TYS.index(KIND_TY.get(kind, "grp")) - 1
                     code = (1000 if vendor is None else 2000) + ti
                     for v in leafs:
@@ -609,6 +613,23 @@ def check_C04(chk, tier, seed):
     fam = frame_families(rng, eng, frames, 25 if tier == "quick" else 80, thorough=(tier == "thorough"))
     fam += [("regress", c.split()[1], bytes.fromhex(c.split()[2][1:]), False) for c in regress_cases("C04") if c.startswith("X ")]
     fam += [("display-stress", did, f, True) for did, f in display_stress_frames(eng)]
+    # AVPs the dictionary lists with a data type the library does not implement (e.g. IPFilterRule in the built-in
+    # dictionary), and AVPs it does not list at all: to be refused with an error, at top level and inside a group
+    for did in ("b", "g"):
+        g = eng.dicts[did]
+        grp = [d for d in g.live() if d["ty"] == "grp" and d["vendor"] is None]
+        targets = [(d["code"], d["vendor"]) for d in g.live() if d["ty"] == "unk"][:4] + [(0x00fffffe, None), (0x00fffffe, 10415)]
+        for (code, vend) in targets:
+            for n in (0, 1, 4, 8):
+                for fl in (0, 0x40):
+                    h = 12 if vend is not None else 8
+                    ln = h + n
+                    avp = gen.be(code, 4) + bytes([fl | (0x80 if vend is not None else 0)]) + gen.be(ln, 3) + (gen.be(vend, 4) if vend is not None else b"") + bytes(n) + b"\0" * ((4 - ln % 4) % 4)
+                    bodies = [avp]
+                    if grp:
+                        bodies.append(gen.be(grp[0]["code"], 4) + b"\0" + gen.be(8 + len(avp), 3) + avp)
+                    for body in bodies:
+                        fam.append(("unknown-typed", did, bytes([1]) + gen.be(20 + len(body), 3) + bytes([0x80]) + gen.be(272, 3) + gen.be(4, 4) + gen.be(1, 4) + gen.be(2, 4) + body, False))
     tab = eng.ask_model(exhaustive_type_table(eng))
     for m in tab:
         _, o = split_obs(m)
@@ -805,9 +826,18 @@ def check_C18(chk, tier, seed):
     hist = exhaustive_type_table(eng)[::3] + gen_histories(rng, eng, n, big=False)
     # decoded starting points too
     frames = corpus_frames(rng.fork("dec"), eng, 300 if tier == "quick" else 5000)
+    # a frame that is refused in the middle of a group (one good member, then a member the dictionary does not know) is decoded
+    # right before every decoded starting point, on the same decoder thread: nothing of it may show up in the next message
+    ggrp = [d for d in eng.dicts["g"].live() if d["ty"] == "grp" and d["vendor"] is None][0]
+    member = gen.be(1011, 4) + b"\0" + gen.be(8 + 3, 3) + b"xyz\0"
+    unknown = gen.be(0x00fffffe, 4) + b"\0" + gen.be(8 + 4, 3) + b"\1\2\3\4"
+    body = gen.be(ggrp["code"], 4) + b"\0" + gen.be(8 + len(member) * 2 + len(unknown), 3) + member + member + unknown
+    hostile = bytes([1]) + gen.be(20 + len(body), 3) + bytes([0x80]) + gen.be(272, 3) + gen.be(4, 4) + gen.be(1, 4) + gen.be(2, 4) + body
     for i, (did, fr) in enumerate(frames[: (200 if tier == "quick" else 4000)]):
         r = rng.fork(f"e{i}")
         _, ops = gen.gen_history(r, eng.dicts[did], maxops=3, depth=2)
+        if i % 2 == 0:
+            hist.append(hist_line("g", ("DEC", hostile), []))
         hist.append(hist_line(did, ("DEC", fr), ops))
     cases = []
     for i, h in enumerate(hist):
